@@ -277,6 +277,8 @@ def run(ctx, prop, rule_text):
                          {"original": cases[base]["text"], "per_method_original": bpm, "per_method_renamed": pm})
     ctx.coverage_meta = {"permutations": nperm, "renamings": nren, "recasings": nrec}
     broken_elsewhere_oracle(ctx, prop, 150 if ctx.tier == "quick" else 3000)
+    if prop == "C15":
+        redeclared_oracle(ctx, 150 if ctx.tier == "quick" else 3000)
     # ---- discrepancy probes ---------------------------------------------------------------------------
     n0 = len(cases)
     for k, (sig, title, text) in enumerate(probes):
@@ -374,6 +376,50 @@ def broken_elsewhere_oracle(ctx, prop, n):
             ctx.oracle_fail("%s:depends-on-syntax-error-elsewhere" % prop,
                             "the verdicts of the intact methods changed when a method with a syntax error was added to the file",
                             {"mode": "lint", "text": b["text"], "as_written": a["text"], "per_method_intact_file": pa, "per_method_with_broken_method": pb})
+
+
+def redeclared_oracle(ctx, n):
+    """a local that a statement of its method mentions is not reported unused — also when the method declares the same name
+    once more further down (in the same or another letter case): the unused-variable items of the REAL diagnostics request
+    must be the generator's (the second declaration is an error of its own, which is not compared).  Such programs are outside
+    the guard of the theorems (`WellDeclared`), so this is an oracle on the implementation alone."""
+    texts, cases = [], []
+    for i in range(n):
+        p = G.gen_prog(ctx.rng, 0)
+        text, exp, per = G.render(p)
+        lines = text.split("\n")
+        starts = [k for k, l in enumerate(lines) if l.startswith("proc ") or l.startswith("func ")]
+        cands = [(mi, v) for mi, m in enumerate(p.methods) for v in m.locals
+                 if v.use in ("once", "nested", "recv", "arg", "index", "expr") and not getattr(m, "join_decls", False)]
+        if not cands or len(starts) != len(p.methods):
+            continue
+        mi, v = ctx.rng.choice(cands)
+        end = next(k for k in range(starts[mi], len(lines)) if lines[k].startswith("end" + p.methods[mi].kind))
+        name = v.name if ctx.rng.chance(1, 2) else G.swapcase_some(v.name, ctx.rng)
+        lines.insert(end, "  var %s : int" % name)
+
+        def shift(cr):
+            cls, rng = cr.split("|")
+            a, b = rng.split("-")
+            (l1, c1), (l2, c2) = a.split(":"), b.split(":")
+            d = 1 if int(l1) >= end else 0
+            return "%s|%d:%s-%d:%s" % (cls, int(l1) + d, c1, int(l2) + d, c2)
+        cases.append({"text": "\n".join(lines), "as_written": text, "expected": sorted(shift(cr) for cr in exp if is15(cr)),
+                      "redeclared": name, "declared": v.name})
+        texts.append(cases[-1]["text"])
+        ctx.count("lint-redeclared-used-local")
+    out = ctx.run_harness("lint", ["lint " + esc(t) for t in texts], timeout=900)
+    for c, o in zip(cases, out):
+        po = parse_out(o)
+        if po is None:
+            ctx.oracle_fail("C15:request-failed-on-redeclaration", "no diagnostics for a file that declares a local twice",
+                            {"mode": "lint", "text": c["text"], "implementation": o[:300]})
+            continue
+        got = sorted(cr for cr in (item_cls_rng(x)[0] for x in po[0]) if is15(cr))
+        if got != c["expected"]:
+            ctx.oracle_fail("C15:redeclared-local", "the unused-variable items changed when a local that IS mentioned was declared once more further down",
+                            {"mode": "lint", "text": c["text"], "as_written": c["as_written"], "generator_expected": c["expected"],
+                             "redeclared": c["redeclared"], "implementation_unused_items": got})
 
 
 def recase_oracle(ctx, n):
@@ -512,7 +558,11 @@ def replay(ctx, prop):
     if case.get("generator_expected") is not None:
         print("generator expects:", case["generator_expected"])
     po, ps = parse_out(impl), re.match(r"^L=(\S*) G=(\S+)$", spec)
-    bad = po is None or not ps or sorted(po[0]) != sorted(x for x in ps.group(1).split(",") if x)
+    if case.get("redeclared"):
+        # outside the guard of the theorems: judged by the generator's expectation alone
+        bad = po is None
+    else:
+        bad = po is None or not ps or sorted(po[0]) != sorted(x for x in ps.group(1).split(",") if x)
     if not bad and case.get("generator_expected") is not None:
         mine = (lambda cr: is15(cr)) if prop == "C15" else (lambda cr: not is15(cr))
         got = sorted(item_cls_rng(x)[0] for x in po[0] if mine(item_cls_rng(x)[0]))
